@@ -14,15 +14,15 @@ import (
 type XStore struct {
 	inner store.Store
 
-	mu       sync.Mutex
-	tracing  bool
-	trace    []string
-	tick     int
-	faultAt  int // -1: none
-	fired    bool
-	txBegun  int
+	mu             sync.Mutex
+	tracing        bool
+	trace          []string
+	tick           int
+	faultAt        int // -1: none
+	fired          bool
+	txBegun        int
 	mutUnderCursor int
-	perturb  func()
+	perturb        func()
 }
 
 var errInjected = errors.New("injected store fault")
@@ -88,10 +88,10 @@ func (s *XStore) Begin(update bool) (store.Tx, error) {
 func (s *XStore) Close() error { return s.inner.Close() }
 
 type xTx struct {
-	s         *XStore
-	inner     store.Tx
-	done      bool
-	openCurs  int
+	s        *XStore
+	inner    store.Tx
+	done     bool
+	openCurs int
 }
 
 func (t *xTx) Set(key, value []byte) error {
